@@ -60,6 +60,7 @@ def run_child(fn, prefix: str, target: str = "", mode: int = LOG, fail_k: int = 
             logfd = os.open(logpath, os.O_WRONLY | os.O_APPEND)
             if edit is not None:
                 L.fsshim_set_edit(int(edit[0]), edit[1].encode(), edit[2].encode())
+                L.fsshim_set_edit_keep_times(1 if (len(edit) > 3 and edit[3]) else 0)
             L.fsshim_configure(prefix.encode(), target.encode(), mode, fail_k, fail_errno, fail_k2, fail_errno2, exit_k, logfd, -1, -1)
             try:
                 res = fn()
